@@ -1059,6 +1059,10 @@ static const ebase BASES[] = {
     { "!gzip response, data not gzip", { "GET /g HTTP/1.1\r\n", "Host: h\r\n", "\r\n" }, { "HTTP/1.1 200 OK\r\n", "Content-Encoding: gzip\r\n", "Content-Length: 24\r\n", "\r\n", "not gzip at ", "all, really!" } },
     { "!gzip response until close, data not gzip", { "GET /g HTTP/1.0\r\n", "\r\n" }, { "HTTP/1.0 200 OK\r\n", "Content-Encoding: gzip\r\n", "\r\n", "not gzip at ", "all, really!" } },
     { "gzip response", { "GET /g HTTP/1.1\r\n", "Host: h\r\n", "\r\n" }, { "HTTP/1.1 200 OK\r\n", "Content-Encoding: gzip\r\n", "Content-Length: 29\r\n", "\r\n", "hex:1f8b0800000000000203cb48cdc9", "hex:c957c8c04e0200f6d253381d000000" } },
+    /* answers that never have a body although they announce a coding */
+    { "304 announcing a coding", { "GET /n HTTP/1.1\r\n", "Host: h\r\n", "If-None-Match: x\r\n", "\r\n" }, { "HTTP/1.1 304 NM\r\n", "Content-Encoding: gzip\r\n", "\r\n" } },
+    { "HEAD answered with coding and length", { "HEAD /h HTTP/1.1\r\n", "Host: h\r\n", "\r\n" }, { "HTTP/1.1 200 OK\r\n", "Content-Encoding: gzip\r\n", "Content-Length: 29\r\n", "\r\n" } },
+    { "204 announcing a coding", { "GET /e HTTP/1.1\r\n", "Host: h\r\n", "\r\n" }, { "HTTP/1.1 204 NC\r\n", "Content-Encoding: deflate\r\n", "\r\n" } },
     /* coded bodies in chunked framing with a trailer, complete and cut short inside the deflate data (the decoder still holds output when the last chunk arrives) */
     { "gzip response, chunked with trailer", { "GET /g HTTP/1.1\r\n", "Host: h\r\n", "\r\n" },
         { "HTTP/1.1 200 OK\r\n", "Content-Encoding: gzip\r\n", "Transfer-Encoding: chunked\r\n", "\r\n", "e\r\n", "hex:1f8b0800000000000203cb48cdc9", "\r\n", "f\r\n", "hex:c957c8c04e0200f6d253381d000000", "\r\n", "0\r\n", "X-T: t\r\n", "\r\n" } },
@@ -1249,6 +1253,53 @@ static void mode_edits(int argc, char **argv) {
     hx_emit_sample("base \"CONNECT refused 407\" with one token-level edit (insert / delete / duplicate / replace / truncate / gap) under every schedule with <= 1 preemption");
 }
 
+/* ------------------------------------------------------------------ steady mode (C10): rounds of TWO base exchanges ---- */
+/* every ordered pair (A, B) of the base exchanges that can be repeated on one connection is run as the round A B tx_freed, N/2 times, with auto-destroy and
+ * logging off; live heap bytes at each TRANSACTION_COMPLETE must equal the value one round earlier (state left behind by A and picked up by B, or the reverse,
+ * shows as growth); whole-message and token-by-token delivery, response decompression on, request decompression off / on */
+static int steady_repeatable(const ebase *b) {
+    static const char *const NO[] = { "CONNECT", "upgrade", "close", "0.9" };
+    for (size_t i = 0; i < sizeof NO / sizeof NO[0]; i++) if (strstr(b->name, NO[i])) return 0;
+    return 1;
+}
+static void steady_add(hx_script *s, const ebase *b, int tokenwise, hx_buf *sq, hx_buf *sr) {
+    load_base(b);
+    if (tokenwise) { for (int k = 0; k < NEQ; k++) hx_script_add(s, OP_Q, EQ[k].d, EQ[k].n); for (int k = 0; k < NER; k++) hx_script_add(s, OP_S, ER[k].d, ER[k].n); return; }
+    hb_reset(sq); hb_reset(sr);
+    for (int k = 0; k < NEQ; k++) hb_put(sq, EQ[k].d, EQ[k].n);
+    for (int k = 0; k < NER; k++) hb_put(sr, ER[k].d, ER[k].n);
+    hx_script_add(s, OP_Q, sq->p, (uint32_t) sq->n); hx_script_add(s, OP_S, sr->p, (uint32_t) sr->n);
+}
+static void mode_steady(int argc, char **argv) {
+    int thorough = !strcmp(hx_tier, "thorough");
+    int N = atoi(hx_arg(argc, argv, "--steady-n", thorough ? "4000" : "400"));
+    long id = 0; static hx_buf q1, r1, q2, r2; static char lab[300];
+    for (int a = 0; a < NBASES; a++) for (int b = 0; b < NBASES; b++) for (int tw = 0; tw < 2; tw++) for (int rd = 0; rd < 2; rd++) {
+        if (!steady_repeatable(&BASES[a]) || !steady_repeatable(&BASES[b])) continue;
+        if (id++ % hx_shard_n != hx_shard_i || hx_deadline_hit()) continue;
+        hx_script_init(&S); S.cfg.auto_destroy = 1; S.cfg.log_level = HTP_LOG_NONE; S.cfg.req_decomp = (uint8_t) rd; S.light = 1;
+        steady_add(&S, &BASES[a], tw, &q1, &r1); steady_add(&S, &BASES[b], tw, &q2, &r2); hx_script_add(&S, OP_FREED, NULL, 0);
+        snprintf(lab, sizeof lab, "steady state: rounds of base \"%s\" then base \"%s\" then tx_freed, %s delivery, request decompression %s", BASES[a].name, BASES[b].name, tw ? "token-by-token" : "whole-message", rd ? "on" : "off");
+        S.label = lab;
+        /* one round first: how many transactions complete per round */
+        S.repeat = 1; S.steady_period = 0;
+        if (hx_run(&S, &O)) continue;
+        int per = O.steady_n_total;
+        if (per < 1 || per > 8 || O.final_in_status == HTP_STREAM_ERROR || O.final_out_status == HTP_STREAM_ERROR) continue;      /* a round that does not complete transactions (or ends a direction) cannot be repeated */
+        S.repeat = N / 2; S.steady_period = per;
+        if (hx_run(&S, &O)) continue;
+        n_exec++; n_calls += O.ncalls; cx_set_add(&outcomes, (uint64_t) O.steady_last * 1315423911u + (uint64_t) id);
+        int want = per * (N / 2);
+        if (O.steady_n_total == want && O.steady_growth_at) {
+            char m[500]; snprintf(m, sizeof m, "%s: live heap at TRANSACTION_COMPLETE #%d differs from the value one round (%d transactions) earlier (last: %lld bytes, %d transactions completed)", lab, O.steady_growth_at, per, (long long) O.steady_last, O.steady_n_total);
+            hx_emit_script_violation("C10", "steady_growth", m, &S, &O);
+        }
+        hx_report_verdicts(&S, &O, PROPS);
+        if (id % 300 == 1) hx_emit_sample(lab);
+    }
+    hx_emit_stat("steady_rounds", hx_shard_i == 0 ? id : 0);
+}
+
 static int worker(int argc, char **argv) {
     PROPS = hx_arg(argc, argv, "--props", "C03");
     const char *mode = hx_arg(argc, argv, "--mode", "seg");
@@ -1260,6 +1311,7 @@ static int worker(int argc, char **argv) {
     else if (!strcmp(mode, "corpus")) mode_corpus(argc, argv);
     else if (!strcmp(mode, "limits")) mode_limits(argc, argv);
     else if (!strcmp(mode, "edits")) mode_edits(argc, argv);
+    else if (!strcmp(mode, "steady")) mode_steady(argc, argv);
     else { fprintf(stderr, "cutmc: unknown mode %s\n", mode); return 2; }
     hx_emit_stat("executions", n_exec); hx_emit_stat("calls", n_calls); hx_emit_stat("distinct_outcomes", (long long) outcomes.cnt);
     return 0;
